@@ -41,7 +41,7 @@ ASSUMPTIONS = [
     "ETX-cache index classes 65535/65536 are reached by pre-filling EVM.ETXCache from the tracer (65536 ETXs cannot be paid for within one block)",
     "eligibility of destination zones is stubbed (zone 0-1 eligible, zone 0-2 not): the deployed topology has a single zone",
     "frame kinds: CALL, DELEGATECALL, CALLCODE, STATICCALL (read-only context incl. write protection of ETX/CONVERT/CREATE/SELFDESTRUCT/value CALL/SSTORE/LOG and the lockup contract's own refusal), CREATE, CREATE2 (one created address per behaviour; the driver supplies a CREATE2 salt whose address lies in this zone); targets of the call kinds are accounts of this zone's Quai ledger (a foreign target is an out-of-gas halt in gasCall)",
-    "precompiles other than the lockup contract, SSTORE refunds and access-list enforcement (bypassed while tracing) are outside the model",
+    "precompiled contracts: one (bn256ScalarMul, whose account exists) as target of top-level transactions and of CALL, with value 0 / > 0, succeeding, failing by input and failing by gas; the other precompiles and the other call kinds towards them, SSTORE refunds and access-list enforcement (bypassed while tracing) are outside the model",
     "coinbase-lockup records of the pre-state are committed in the database and the block batch has the pending view on (as StateProcessor.Process / the worker set it up); a quarter of the random scenarios stage them in the batch instead; consecutive transactions of a behaviour share the batch (one block)",
     "conversion / coinbase-lockup INBOUND ETXs (handled by StateProcessor.Process, not ApplyTransaction) are outside the model",
     "TLC, the Go runtime and the memory database are trusted",
@@ -310,7 +310,7 @@ def run_check(ctx):
                  # the other frame kinds (DELEGATECALL / CALLCODE / STATICCALL / CREATE2, depth 2 and 3, two operations per frame)
                  # and the twice-claimed lockup: small universes, replayed completely
                  [("MCEvmValue_emit_xframes.cfg", None), ("MCEvmValue_emit_xframes3.cfg", None)],
-                 [("MCEvmValue_emit_xframes_ops2.cfg", None), ("MCEvmValue_emit_claim.cfg", None)]]
+                 [("MCEvmValue_emit_xframes_ops2.cfg", None), ("MCEvmValue_emit_claim.cfg", None), ("MCEvmValue_emit_precompile.cfg", None)]]
         chunks, depth = [(600, ctx.seed)], 4
     else:
         design = ["MCEvmValue_frames_small.cfg", "MCEvmValue_frames_big.cfg", "MCEvmValue_ops_small.cfg", "MCEvmValue_gas_small.cfg",
@@ -319,7 +319,7 @@ def run_check(ctx):
         emits = [[("MCEvmValue_emit_ops_big.cfg", 40000), ("MCEvmValue_emit_ops.cfg", None)],
                  [("MCEvmValue_emit_frames.cfg", 60000), ("MCEvmValue_emit_f5.cfg", None), ("MCEvmValue_emit_multi.cfg", 20000)],
                  [("MCEvmValue_emit_xframes.cfg", None), ("MCEvmValue_emit_xframes3.cfg", None)],
-                 [("MCEvmValue_emit_xframes_ops2.cfg", None), ("MCEvmValue_emit_claim.cfg", None)]]
+                 [("MCEvmValue_emit_xframes_ops2.cfg", None), ("MCEvmValue_emit_claim.cfg", None), ("MCEvmValue_emit_precompile.cfg", None)]]
         chunks, depth = [(2500, ctx.seed * 1000 + i) for i in range(3)], 5
 
     def emit_chain(plans):
@@ -392,7 +392,32 @@ def run_check(ctx):
                     "core.ApplyTransaction on a real StateDB, every step's observation compared; seeded random programs (depth <= %d) "
                     "logged from the real code and validated by EvmValueTrace.tla with the %s invariants evaluated on the "
                     "implementation's states; conservation / all-or-nothing additionally evaluated natively (math/big)" % (depth, ctx.id))
+    if ctx.id == "C05":
+        chain_layer_c05(ctx, cov)
     vlib.write_evidence(ctx, "model_checking", cov, ASSUMPTIONS)
+
+
+def chain_layer_c05(ctx, cov):
+    """C05's last sentence on a real node: blocks with SEVERAL ETX-emitting transactions (conversions) are assembled by the worker (one EVM per
+    transaction) and validated by StateProcessor.Process (one EVM shared by all transactions of the block); the receipts the node stored must
+    record, transaction by transaction and in execution order, exactly the block's committed outbound list (without the protocol's coinbase
+    ETXs), and the node must accept its own blocks (the receipt root commits to the recorded ETXs)."""
+    import shutil
+    import zonechain as zc
+    drv = vlib.go_build("chaindrv")
+    dbdir = zc.scratch(ctx)
+    try:
+        sub = dbdir / "c05chain"; sub.mkdir()
+        tr, info = zc.run_chaindrv(ctx, drv, "c05-chain", ctx.seed * 100 + 5, 24 if ctx.quick else 90, sub, extra=["-trimdepth", 4, "-primesiblings", 6])
+        for pr in info.get("problems") or []:
+            if pr["kind"] in ("receipts-do-not-record-the-committed-outbound-set", "own-block-rejected", "prime-sibling-scenario-block-refused"):
+                vlib.report(ctx, {"kind": "chain-" + pr["kind"]}, {"seed": ctx.seed * 100 + 5, "problem": pr, "trace": str(tr)})
+        if not ctx.violations and info.get("receipt_etx_checks", 0) < 8:
+            raise Broken("chain layer compared the receipts of only %d blocks" % info.get("receipt_etx_checks", 0))
+        cov.update(chain_blocks_with_receipts_compared=info.get("receipt_etx_checks", 0))
+    finally:
+        shutil.rmtree(dbdir, ignore_errors=True)
+    zc.check_aborted(ctx)
 
 
 def run(ctx):
